@@ -625,6 +625,10 @@ class VM:
             return rust_str(s)
         if core_ty in ('f64', 'f32'):
             t = s.replace('_f64', '').replace('f64', '').replace('_f32', '').replace('f32', '')
+            named_ = {'NEG_INFINITY': float('-inf'), 'INFINITY': float('inf'), 'NAN': float('nan'), 'MAX': 1.7976931348623157e308, 'MIN': -1.7976931348623157e308,
+                      'EPSILON': 2.220446049250313e-16, 'MIN_POSITIVE': 2.2250738585072014e-308}
+            if s.rsplit('::', 1)[-1] in named_ and '::' in s:
+                return named_[s.rsplit('::', 1)[-1]]
             try:
                 return float(t)
             except ValueError:
@@ -788,7 +792,7 @@ class VM:
                 return Seq(ops)
             if ak == 'adt':
                 a = self.facts.adts.get(rv['adt'])
-                if (a and a['kind'] == 'Enum') or rv['adt'].startswith(('core::option::Option', 'core::result::Result', 'core::ops::control_flow::ControlFlow')):
+                if (a and a['kind'] == 'Enum') or rv.get('is_enum') or rv['adt'].startswith(('core::option::Option', 'core::result::Result', 'core::ops::control_flow::ControlFlow')):
                     return Enum(rv['adt'], rv['variant'], ops)
                 return Struct(rv['adt'].split('::')[-1], zip(rv.get('fields', []), ops))
             if ak == 'closure':
@@ -1787,6 +1791,12 @@ class VM:
                     return (last == 'is_infinite') == (a0 == a0)
                 if last in ('round', 'floor', 'ceil', 'trunc'):
                     return a0
+                if last in ('min', 'max') and b is not None:
+                    if a0 != a0:
+                        return b
+                    if b != b:
+                        return a0
+                    return min(a0, b) if last == 'min' else max(a0, b)
                 raise Unsupported('f64::%s of %r' % (last, a0))
             if last == 'round':
                 return float(math.floor(abs(a0) + 0.5)) * (1.0 if a0 >= 0 else -1.0)      # half away from zero
@@ -1844,6 +1854,10 @@ class VM:
             return fmt_float(v, debug)
         if v == () and debug:
             return '()'
+        if isinstance(v, Iter) and not debug and all(isinstance(x, str) and len(x) == 1 for x in v.rest()):
+            return ''.join(v.rest())          # char::to_uppercase() / to_lowercase() are Display
+        if isinstance(v, Enum) and (v.adt or '').startswith('alloc::borrow::Cow'):
+            return self.display(v.payload[0], debug)
         if debug and isinstance(v, Enum) and v.variant in ('Some', 'None', 'Ok', 'Err'):
             return v.variant + ('(%s)' % ', '.join(self.display(x, True) for x in v.payload) if v.payload else '')
         if debug and isinstance(v, (Seq, Slice)):
@@ -2025,6 +2039,39 @@ class VM:
                 return (self._norm(a0) == self._norm(b0)) == (last == 'eq')
         if name == 'Clone::clone' and isinstance(a0, Iter):
             return copy.deepcopy(a0)
+        if isinstance(a0, Enum) and (a0.adt or '').startswith('alloc::borrow::Cow'):
+            inner = a0.payload[0]
+            if name in ('Deref::deref', 'AsRef::as_ref', 'Borrow::borrow'):
+                return inner
+            if last in ('into_owned', 'to_string', 'into_string'):
+                return d(inner)
+            if last == 'to_mut':
+                if a0.variant == 'Borrowed':
+                    self.store(args[0], Enum(a0.adt, 'Owned', [d(inner)]))
+                r0 = args[0]
+                return Ref(r0.kind, r0.key, r0.path + (0,)) if isinstance(r0, Ref) else inner
+            if last in ('is_borrowed', 'is_owned'):
+                return (a0.variant == 'Borrowed') == (last == 'is_borrowed')
+            if name in ('PartialEq::eq', 'PartialEq::ne'):
+                b_ = d(args[1])
+                if isinstance(b_, Enum) and (b_.adt or '').startswith('alloc::borrow::Cow'):
+                    b_ = d(b_.payload[0])
+                return (self._norm(d(inner)) == self._norm(b_)) == (last == 'eq')
+            if name == 'Clone::clone':
+                return Enum(a0.adt, a0.variant, [d(inner)])
+        if name in ('From::from', 'Into::into') and len(args) == 1 and 'alloc::borrow::Cow' in (callee + ((t or {}).get('gargs', '') if isinstance(t, dict) else '')).split(' as ')[0].split(',')[0]:
+            return Enum('alloc::borrow::Cow', 'Borrowed' if isinstance(args[0], (Ref, _Val)) or isinstance(a0, str) and "&" in ((t or {}).get('gargs', '') if isinstance(t, dict) else '') else 'Owned', [args[0]])
+        if name in ('Rc::new', 'Arc::new') and len(args) == 1:
+            cell = Seq([args[0]])
+            return Struct('Rc', {'cell': Ref('obj', cell, (0,)), 'count': Seq([1])})
+        if isinstance(a0, Struct) and a0.name == 'Rc':
+            if name in ('Deref::deref', 'AsRef::as_ref', 'Borrow::borrow', 'Rc::as_ref', 'Arc::as_ref'):
+                return a0.fields['cell']
+            if name in ('Clone::clone', 'Rc::clone', 'Arc::clone'):
+                a0.fields['count'].items[0] += 1
+                return Struct('Rc', {'cell': a0.fields['cell'], 'count': a0.fields['count']})
+            if last in ('strong_count',):
+                return a0.fields['count'].items[0]
         if name in ('Box::new',) and len(args) == 1:
             cell = Seq([args[0]])
             return Struct('Box', {'0': Struct('Unique', {'0': Struct('NonNull', {'0': Ref('obj', cell, (0,))})})})
